@@ -91,6 +91,22 @@ def ev(n, env):
         if isinstance(l, Series):
             return Mask(l.frame, '%s == %s' % (l.col, U(n.comparators[0])))
         return None
+    if isinstance(n, ast.Compare) and len(n.ops) == 1 and isinstance(
+            n.ops[0], (ast.Gt, ast.GtE, ast.Lt, ast.LtE, ast.NotEq)):
+        l = ev(n.left, env)
+        if isinstance(l, Series):
+            op = {ast.Gt: '>', ast.GtE: '>=', ast.Lt: '<', ast.LtE: '<=',
+                  ast.NotEq: '!='}[type(n.ops[0])]
+            return Mask(l.frame, '%s %s %s' % (l.col, op,
+                                               U(n.comparators[0])))
+        return None
+    if isinstance(n, ast.Call) and U(n.func) in ('np.isclose',
+                                                 'numpy.isclose') \
+            and len(n.args) >= 2:
+        l = ev(n.args[0], env)
+        if isinstance(l, Series):
+            return Mask(l.frame, '%s ~= %s' % (l.col, U(n.args[1])))
+        return None
     if isinstance(n, ast.UnaryOp) and isinstance(n.op, ast.Invert):
         v = ev(n.operand, env)
         if isinstance(v, Mask):
